@@ -150,3 +150,39 @@ Definition why_not (methods : list (string * list astmt)) : list (string * strin
                        | WRet => []
                        end
                      else []) methods.
+
+(* ---- one critical section per method.  [acquisitions] is the largest number
+   of times a path through the method takes the lock (directly or by calling a
+   locking method); a loop that takes it counts as "more than once".  A method
+   with at most one acquisition reads and writes the registry inside a single
+   region: what it does is atomic with respect to every other method. *)
+Section SECTIONS.
+Variable methods : list (string * list astmt).
+
+Fixpoint acquisitions (fuel : nat) (l : list astmt) : nat :=
+  match fuel with
+  | O => 2
+  | S f =>
+    match l with
+    | [] => 0
+    | SRet :: _ => 0
+    | SEv ALock :: r | SEv ARLock :: r => S (acquisitions f r)
+    | SEv (ACall m) :: r =>
+        match assoc_s m methods with
+        | Some body => (if takes_lock body then 1 else 0) + acquisitions f r
+        | None => 2
+        end
+    | SEv _ :: r => acquisitions f r
+    | SIf a b :: r => Nat.max (acquisitions f a) (acquisitions f b) + acquisitions f r
+    | SLoop b :: r => (match acquisitions f b with O => 0 | _ => 2 end) + acquisitions f r
+    end
+  end.
+
+Definition one_section (body : list astmt) : bool := Nat.leb (acquisitions 200 body) 1.
+End SECTIONS.
+
+Definition single_sections (methods : list (string * list astmt)) : bool :=
+  forallb (fun m => one_section methods (snd m)) methods.
+
+Definition several_sections (methods : list (string * list astmt)) : list string :=
+  map fst (filter (fun m => negb (one_section methods (snd m))) methods).
